@@ -30,7 +30,8 @@ VALUES = {
     "int": [0, 1, -1, 7, 2**31 - 1, -2**31, 2**53 + 1, -2**63, 2**63 - 1],
     "float": [0.0, -0.0, 1.5, float("inf"), -1e300, 2.0**53],
     "bool": [True, False],
-    "str": ["a", "b", "é", "x" * 60, " ", "日本", ""],
+    "str": ["a", "b", "é", "x" * 60, " ", "日本", "", "\x00", "\x00\x00"],       # a string of NUL characters is not the empty string
+    "bigint": [2**64, 2**70, -2**64, -2**63 - 1],         # Python integers no 64-bit dtype holds
     "date": ["2020-01-01", "1969-12-31", "0001-01-01", "9999-12-31", "2024-02-29"],
     "dtime": ["2020-01-01T01:02:03.000004", "1969-12-31T23:59:59", "0001-01-01T00:00:00"],
     "tdelta": [0, 1, -5, 86400],
@@ -48,6 +49,7 @@ DTYPES = {  # explicit dtypes able to hold the data of a kind
     "int": ["float", "int", "object", "str"], "float": ["float", "object"], "bool": ["object", "bool"],
     "str": ["str", "object"], "date": ["datetime64[D]", "object", "datetime64[us]"],
     "dtime": ["datetime64[us]", "object"], "tdelta": ["timedelta64[s]"], "bytes": [], "obj": ["object"],
+    "bigint": ["object"],
 }
 
 
@@ -104,6 +106,8 @@ def _plan(draw, max_len):
         v = draw(st.sampled_from(VALUES[k]))
         if tag == "np_i32" and not -2**31 <= v < 2**31:
             v = 7
+        if tag == "np_s" and v.endswith("\x00"):
+            tag = "py"               # a numpy.str_ scalar cannot hold a trailing NUL itself (np.str_("\0") == "")
         if tag == "np_f32":
             v = draw(st.sampled_from([0.0, 1.5, -2.0]))
         items.append([k, tag, v])
@@ -222,6 +226,7 @@ def check(plan, ctx):
             "tdelta": np.issubdtype(d, np.timedelta64) or d == object,   # statement: "None otherwise"
             "bytes": True,
             "obj": d == object,
+            "bigint": d == object,
         }[k]
         if not ok:
             raise Violation("inferred dtype is not the kind's type with its missing value", kind=k, dtype=str(d),
